@@ -42,40 +42,40 @@ Q, T = 700, 30000
 PROPS = {
     "C01": dict(theorems=["Props/C01.v", "Props/C01w.v"], parts=[
         dict(kind="core", profile="C01", mask="out,keys,vals", preds="c01", quick=Q, thorough=T),
-        dict(kind="macro", profile="C01", preds="pure", quick=300, thorough=8000)]),
+        dict(kind="macro", profile="C01", preds="pure", mask="ret,keys,vals", quick=300, thorough=8000)]),
     "C02": dict(theorems=["parts/keys/coq|CLK|Props_C02.v"], parts=[
         dict(kind="ext", name="keys", quick=1500, thorough=30000),
-        dict(kind="macro", profile="C02", preds="pure", quick=300, thorough=8000)]),
+        dict(kind="macro", profile="C02", preds="pure", mask="ret,keys", quick=300, thorough=8000)]),
     "C03": dict(theorems=["Props/C03.v", "Props/C18.v"], parts=[
-        dict(kind="macro", profile="C03", preds="once,pure", quick=400, thorough=10000),
+        dict(kind="macro", profile="C03", preds="once,pure", mask="ret,keys", quick=400, thorough=10000),
         dict(kind="sched", mode="sharing", quick=120, thorough=3000)]),
     "C04": dict(theorems=["Props/C04.v"], parts=[
         dict(kind="core", profile="C04", mask="keys,qset", preds="c04,wf", quick=Q, thorough=T),
-        dict(kind="macro", profile="C04", preds="limit", quick=300, thorough=8000)]),
+        dict(kind="macro", profile="C04", preds="limit", mask="nkeys,qset", quick=300, thorough=8000)]),
     "C05": dict(theorems=["Props/C05.v", "parts/memest/coq|CLM|Props_C05_memest.v"], parts=[
         dict(kind="core", profile="C05", mask="keys,qset,size", preds="c05,wf", quick=Q, thorough=T),
         dict(kind="ext", name="memest", quick=1500, thorough=30000, env={"MEMEST_TARGET": BUILD + "/target"})]),
     "C06": dict(theorems=["Props/C06.v"], parts=[
         dict(kind="core", profile="C06", mask="out,keys,qset,born,stats", preds="c06", quick=Q, thorough=T),
-        dict(kind="macro", profile="C06", preds="ttl", quick=300, thorough=8000)]),
+        dict(kind="macro", profile="C06", preds="ttl", mask="ret,keys,born", quick=300, thorough=8000)]),
     "C07": dict(theorems=["Props/C07.v"], parts=[
         dict(kind="core", profile="C07", mask="keys,queue", preds="c07", quick=Q, thorough=T),
-        dict(kind="macro", profile="C07", preds="order", quick=300, thorough=8000)]),
+        dict(kind="macro", profile="C07", preds="order", mask="keys,queue", quick=300, thorough=8000)]),
     "C08": dict(theorems=["Props/C08.v"], parts=[
         dict(kind="core", profile="C08", mask="keys,queue,freq", preds="c08", quick=Q, thorough=T),
-        dict(kind="macro", profile="C08", preds="", quick=300, thorough=8000)]),
+        dict(kind="macro", profile="C08", preds="score", mask="keys,queue,freq", quick=300, thorough=8000)]),
     "C09": dict(theorems=["Props/C09.v"], parts=[
-        dict(kind="macro", profile="C09", preds="err", quick=400, thorough=10000)]),
+        dict(kind="macro", profile="C09", preds="err", mask="ret,keys,vals", quick=400, thorough=10000)]),
     "C10": dict(theorems=["Props/C10.v"], parts=[
-        dict(kind="macro", profile="C10", preds="cif", quick=400, thorough=10000)]),
+        dict(kind="macro", profile="C10", preds="cif", mask="ret,keys,vals", quick=400, thorough=10000)]),
     "C11": dict(theorems=["Props/C11.v"], parts=[
-        dict(kind="macro", profile="C11", preds="inv", quick=400, thorough=10000)]),
+        dict(kind="macro", profile="C11", preds="inv", mask="ret,keys,vals,born", quick=400, thorough=10000)]),
     "C12": dict(theorems=["Props/C12.v"], parts=[
-        dict(kind="macro", profile="C12", preds="tags,frame", quick=400, thorough=10000)]),
+        dict(kind="macro", profile="C12", preds="tags,frame", mask="counts,keys,qset", quick=400, thorough=10000)]),
     "C13": dict(theorems=["Props/C13.v"], parts=[
-        dict(kind="macro", profile="C13", preds="frame", quick=400, thorough=10000)]),
+        dict(kind="macro", profile="C13", preds="frame", mask="counts,keys,queue", quick=400, thorough=10000)]),
     "C14": dict(theorems=["Props/C14.v"], parts=[
-        dict(kind="macro", profile="C14", preds="iso,pure", quick=400, thorough=10000),
+        dict(kind="macro", profile="C14", preds="iso,pure", mask="ret,keys", quick=400, thorough=10000),
         dict(kind="sched", mode="sharing", quick=120, thorough=3000)]),
     "C17": dict(theorems=["parts/locks/coq|CLL|Props_C17.v"], parts=[
         dict(kind="locks"),
@@ -83,16 +83,16 @@ PROPS = {
     "C18": dict(theorems=["Props/C18.v"], parts=[
         dict(kind="sched", mode="consistency", quick=700, thorough=0)]),
     "C20": dict(theorems=["Props/C20.v", "parts/locks/coq|CLL|Props_C20.v"], parts=[
-        dict(kind="macro", profile="C20", preds="c20", quick=500, thorough=12000, panic_is_failure=True)]),
+        dict(kind="macro", profile="C20", preds="c20", mask="ret,keys,vals,born", quick=500, thorough=12000, panic_is_failure=True)]),
     "C19": dict(theorems=["parts/attrs/coq|CLA|Props_C19.v", "Props/C01w.v"], parts=[
         dict(kind="ext", name="attrs", quick=2000, thorough=30000),
-        dict(kind="macro", profile="C19", preds="pure,limit,ttl,order,err,cif,inv,stats,tags,frame", quick=400, thorough=10000, panic_is_failure=True)]),
+        dict(kind="macro", profile="C19", preds="pure,limit,ttl,order,score,err,cif,inv,stats,tags,frame", quick=400, thorough=10000, panic_is_failure=True)]),
     "C16": dict(theorems=["Props/C16.v"], parts=[
         dict(kind="core", profile="C16", mask="", preds="", quick=1200, thorough=60000, panic_is_failure=True),
-        dict(kind="macro", profile="C16", preds="", quick=400, thorough=10000, panic_is_failure=True)]),
+        dict(kind="macro", profile="C16", preds="", mask="none", quick=400, thorough=10000, panic_is_failure=True)]),
     "C15": dict(theorems=["Props/C15.v"], parts=[
         dict(kind="core", profile="C15", mask="out,stats", preds="c15", quick=Q, thorough=T),
-        dict(kind="macro", profile="C15", preds="stats", quick=300, thorough=8000)]),
+        dict(kind="macro", profile="C15", preds="stats", mask="ret,stats", quick=300, thorough=8000)]),
 }
 
 
@@ -405,7 +405,10 @@ def ensure_corpus():
         raise RuntimeError("corpus generator failed: " + out)
 
 
-def run_macro_cases(cases_text, preds, tag):
+FULL_MASK = "ret,keys,queue,vals,freq,born,stats,counts"
+
+
+def run_macro_cases(cases_text, preds, tag, mask=FULL_MASK):
     cf = "%s/mcases_%s.txt" % (BUILD, tag)
     of = "%s/mobs_%s.txt" % (BUILD, tag)
     with open(cf, "w") as f:
@@ -413,7 +416,8 @@ def run_macro_cases(cases_text, preds, tag):
     rc, out = sh("%s/target/debug/vh-macro run %s %s" % (BUILD, cf, of), timeout=3000)
     if rc != 0:
         return None, "vh-macro failed: " + out[-500:]
-    rc, out = sh("%s/extract/e2_driver %s/corpus/corpus_table.txt %s --preds %s" % (BUILD, BUILD, of, preds or "none"), timeout=3000)
+    rc, out = sh("%s/extract/e2_driver %s/corpus/corpus_table.txt %s --preds %s --mask %s"
+                 % (BUILD, BUILD, of, preds or "none", mask or "none"), timeout=3000)
     if rc != 0:
         return None, "e2_driver failed: " + out[-500:]
     verdicts, fails, stats = {}, {}, {}
@@ -429,8 +433,8 @@ def run_macro_cases(cases_text, preds, tag):
     return (verdicts, fails, stats), None
 
 
-def macro_case_failing(case_lines, preds, want, tag):
-    r, err = run_macro_cases("\n".join(case_lines) + "\n", preds, tag)
+def macro_case_failing(case_lines, preds, want, tag, mask=FULL_MASK):
+    r, err = run_macro_cases("\n".join(case_lines) + "\n", preds, tag, mask)
     if r is None:
         return False
     verdicts, fails, _ = r
@@ -440,7 +444,7 @@ def macro_case_failing(case_lines, preds, want, tag):
     return verdicts.get(cid, "").startswith(want[1])
 
 
-def shrink_macro_case(case_lines, preds, want, tag):
+def shrink_macro_case(case_lines, preds, want, tag, mask=FULL_MASK):
     head, evs, end = case_lines[0], case_lines[1:-1], case_lines[-1]
     changed, rounds = True, 0
     while changed and rounds < 5:
@@ -454,7 +458,7 @@ def shrink_macro_case(case_lines, preds, want, tag):
                 nxt = trial[i].split()
                 nxt[1] = str(int(nxt[1]) + dt)
                 trial[i] = " ".join(nxt)
-            if trial and macro_case_failing([head] + trial + [end], preds, want, tag):
+            if trial and macro_case_failing([head] + trial + [end], preds, want, tag, mask):
                 evs = trial
                 changed = True
             i -= 1
@@ -476,7 +480,8 @@ def part_macro(run, part):
     corpus = open(cpath).read() if os.path.exists(cpath) else ""
     text = corpus + open(gen).read()
     preds = part["preds"]
-    r, err = run_macro_cases(text, preds, run.pid)
+    mask = part.get("mask", FULL_MASK)
+    r, err = run_macro_cases(text, preds, run.pid, mask)
     if r is None:
         run.add_violation("mismatch", "correspondence run failed: " + err, err, False, "harness-run")
         return
@@ -488,7 +493,7 @@ def part_macro(run, part):
     run.cov["histograms"]["macro_events"] = geninfo["events"]
     run.cov["histograms"]["macro_observed"] = stats
     run.cov["samples"] += geninfo["samples"][:1]
-    run.cov["parts"].append(dict(kind="macro", profile=part["profile"], preds=preds, cases=len(verdicts),
+    run.cov["parts"].append(dict(kind="macro", profile=part["profile"], preds=preds, mask=mask, cases=len(verdicts),
                                  corpus_functions=sum(1 for _ in open(BUILD + "/corpus/corpus_table.txt"))))
     # distinct non-trivial: distinct event lists among cases in which some call was served from the cache
     # and some entry was removed (eviction, expiry or invalidation) — measured by the driver per run, per case here
@@ -504,7 +509,7 @@ def part_macro(run, part):
     for cid, fl in sorted(fails.items()):
         for p, idx, detail in fl:
             if p in own and reported < 3:
-                small = shrink_macro_case(cases[cid], preds, ("F", p), run.pid + "_shrink")
+                small = shrink_macro_case(cases[cid], preds, ("F", p), run.pid + "_shrink", mask)
                 what = "oracle %s fails on the implementation at event %d of case %s: %s" % (p, idx, cid, detail)
                 fns = sorted(set(e.split()[3] for e in small[1:-1] if e.split()[2] == "call"))
                 run.add_violation("prop", what, "\n".join(small) + "\n# functions: " + ",".join("f" + x for x in fns),
@@ -513,14 +518,14 @@ def part_macro(run, part):
     if part.get("panic_is_failure"):
         for cid, v in sorted(verdicts.items()):
             if (v.startswith("PANIC") or v.startswith("CRASH")) and reported < 3:
-                small = shrink_macro_case(cases[cid], preds, ("V", v.split()[0]), run.pid + "_shrink")
+                small = shrink_macro_case(cases[cid], preds, ("V", v.split()[0]), run.pid + "_shrink", mask)
                 run.add_violation("panic", "call panicked: %s (case %s)" % (v, cid), "\n".join(small), True, "panic " + v[:80])
                 reported += 1
     bad = [(cid, v) for cid, v in sorted(verdicts.items())
            if v.startswith("MISMATCH") or v.startswith("PANIC") or v.startswith("CRASH") or v.startswith("BLOCKED")]
     if bad and reported == 0:
         cid, v = bad[0]
-        small = shrink_macro_case(cases[cid], preds, ("V", v.split()[0]), run.pid + "_shrink")
+        small = shrink_macro_case(cases[cid], preds, ("V", v.split()[0]), run.pid + "_shrink", mask)
         what = ("correspondence E2/%s broken: model Wrapper.call/world and the macro-generated code disagree (%d of %d cases; first: %s %s); "
                 "no oracle of %s failed on any explored trace" % (part["profile"], len(bad), len(verdicts), cid, v[:240], run.pid))
         run.add_violation("mismatch", what, "\n".join(small) + "\n# " + v, False, "mismatch " + v[:60])
